@@ -119,6 +119,11 @@ def _anchors():
     out.append(A("surface_ignore_faces", _SQ[:4], E=[[0, 2]], F=[[0, 1, 2], [0, 2, 3]], ignore=["faces"]))
     out.append(A("volume_ignore_cells", _TETV[:4], C=[[0, 1, 2, 3]], ignore=["cells"]))
     out.append(A("volume_ignore_faces", _TETV[:4], C=[[0, 1, 2, 3]], ignore=["faces"]))
+    for how in HARD_EDITS:
+        out.append(A("hard_flags_%s_two_triangles" % how, _SQ[:4], E=[[2, 0], [0, 1]], F=[[0, 1, 2], [0, 2, 3]], hard_edit=how,
+                     formats=["obj", "mesh", "geogram_ascii"]))
+        out.append(A("hard_flags_%s_one_tet" % how, _TETV[:4], E=[[1, 0], [2, 3]], F=[[0, 1, 2]], C=[[0, 1, 2, 3]], hard_edit=how,
+                     formats=["obj", "mesh", "geogram_ascii"]))
     # coordinate storage: numpy float32 / float64 / integer rows and scalars, Python ints, from_arrays, a mesh loaded from binary STL.
     # 0.1, 1/3, 1e-3 ... are not float32 numbers: float32(0.1) = 0.10000000149011612 has to come back, not 0.1
     frac = [[0.1, 0.2, 0.3], [1.1, 1.0 / 3.0, 1e-3], [0.7, 2.6, -0.9], [-0.1, 1.7, 123456.789]]
@@ -210,6 +215,17 @@ def cases(seed, tier):
              "ignore": [], "vrows": "list", "irows": rng2.choice(["list", "tuple", "npint", "nprow"]),
              "edges": rng2.choice(["none", "none", "some", "all"]), "unused": rng2.choice([0, 0, 1]),
              "unused_front": rng2.random() < 0.5, "decl_faces": rng2.choice([0.0, 0.0, 0.3]), "attrs": _attr_plan(rng2, kind.split(":")[0], 0.25)}
+        out.append(d)
+    # hard-edge flags edited after construction (surfaces and volumes with declared edges, completion switched on)
+    rng3 = random.Random(seed * 6007 + 61)
+    n3 = 120 if tier == "quick" else 5000
+    for i in range(n3):
+        kind = ["surface:tri", "surface:quad", "surface:any", "volume:tets", "surface:poly", "volume:mixed"][i % 6]
+        d = {"gen": "mesh", "kind": kind, "seed": rng3.randrange(2 ** 31), "size": rng3.choice(sizes), "coords": rng3.choice(["zoo", "int", "digits17"]),
+             "cfg": {"export_edges_in_obj": rng3.random() < 0.85, "complete_edges_from_faces": True},
+             "ignore": [] if rng3.random() < 0.85 else ["faces"], "vrows": "list", "irows": rng3.choice(["list", "tuple"]),
+             "edges": rng3.choice(["some", "all", "some"]), "unused": 0, "unused_front": False, "decl_faces": rng3.choice([0.3, 1.0]),
+             "attrs": [], "hard_edit": HARD_EDITS[(i // 6 + i) % len(HARD_EDITS)], "formats": ["obj", "mesh", "geogram_ascii"]}
         out.append(d)
     # last, so that a native abort costs no re-run of other cases (each lands at the end of its shard)
     out += _crash_cases()
@@ -456,8 +472,51 @@ def _call(ctx, monitor, op, fn, *args, expect=(), soft=False, **kw):
 
 
 # ============================================================================================== projections
-def project(snap, fmt, cfg, ignore, n_declared_edges, has_faces_at_build):
-    """Projection of a mesh (plain snapshot) onto the vocabulary of a format, under the switches in force."""
+HARD_EDITS = ["some_false", "all_false", "unflag_some", "unflag_all", "flag_completed"]
+
+
+def _edit_hard_edges(mesh, desc, rng):
+    """Edits the hard-edge flags of a built surface / volume through the public attribute API, as a user would after construction:
+    some / all flags stored as False, flags removed (clear() then some set again), completed edges flagged True or stored False.
+    Returns the set of edges whose flag is True afterwards (= the edges that are declared hard when the mesh is saved), or None
+    when the descriptor asks for no edit or the mesh has no hard_edges attribute."""
+    how = desc.get("hard_edit")
+    if not how or not hasattr(mesh, "edges") or not mesh.edges.has_attribute("hard_edges"):
+        return None
+    attr = mesh.edges.get_attribute("hard_edges")
+    flagged = sorted(int(e) for e in attr)
+    n = len(mesh.edges)
+    if how == "some_false":
+        for e in flagged:
+            if rng.random() < 0.5:
+                attr[e] = False
+        if flagged:
+            attr[flagged[0]] = False
+    elif how == "all_false":
+        for e in flagged:
+            attr[e] = False
+    elif how == "unflag_some":
+        attr.clear()
+        for e in flagged:
+            if rng.random() < 0.5:
+                attr[e] = True
+    elif how == "unflag_all":
+        attr.clear()
+    elif how == "flag_completed":
+        others = [e for e in range(n) if e not in set(flagged)]
+        rng.shuffle(others)
+        # flagged in increasing edge order: obj / medit write the stored flags in the order they were stored, and the edge
+        # order of the file is judged against the edge order of the mesh
+        for k, e in enumerate(sorted(others[:4])):
+            attr[e] = (k % 2 == 0)
+        if flagged:
+            attr[flagged[-1]] = False
+    return {tuple(sorted(int(v) for v in mesh.edges[e])) for e in range(n) if bool(attr[e])}
+
+
+def project(snap, fmt, cfg, ignore, n_declared_edges, has_faces_at_build, hard=None):
+    """Projection of a mesh (plain snapshot) onto the vocabulary of a format, under the switches in force.
+    hard: set of edges flagged hard at save time when the flags were edited after construction (else: the declared edges)."""
     E_all = [] if "edges" in ignore else list(snap["E"])
     F = [] if "faces" in ignore else [list(f) for f in snap["F"]]
     C = [] if "cells" in ignore else [list(c) for c in snap["C"]]
@@ -466,7 +525,7 @@ def project(snap, fmt, cfg, ignore, n_declared_edges, has_faces_at_build):
         exp["E_allowed"] = E_all
         if cfg["complete_edges_from_faces"] and has_faces_at_build and (F or C):
             # edges completed from faces are implied by the faces that are saved with them: only the declared ones have to be in the file
-            exp["E_required"] = E_all[:n_declared_edges]
+            exp["E_required"] = E_all[:n_declared_edges] if hard is None else [e for e in E_all if e in hard]
         else:
             # nothing is saved from which the edges could be completed again (no faces at build time, or faces and cells ignored at save time):
             # the edges are the content of the mesh and must all be written
@@ -822,12 +881,13 @@ def direction_save(ctx, desc, inp, fmt, tmp, cfg):
                                       vstore=desc.get("vstore"), tmp=tmp)
     rng = random.Random(desc["seed"] ^ 0xA77)
     made = _make_attrs(mesh, desc.get("attrs", []), rng) if fmt in ("geogram_ascii", "obj", "xyz") else []
+    hard = _edit_hard_edges(mesh, desc, random.Random(desc["seed"] ^ 0x4A2D))
     snap = _snap(mesh)
     ignore = set(desc.get("ignore", []))
     if fmt == "stl" and not zin.fits_float32(snap["V"]):
         ctx.note("stl_skipped_outside_float32_range")
         return
-    exp = project(snap, fmt, cfg, ignore, n_declared, bool(snap["F"]))
+    exp = project(snap, fmt, cfg, ignore, n_declared, bool(snap["F"]), hard=hard)
     path = os.path.join(tmp, _file_name("m", fmt, desc))
     polygons = fmt == "stl" and any(len(f) >= 5 for f in snap["F"]) and "faces" not in ignore
     ok, res = _call(ctx, "roundtrip", fmt + "/save", M.mesh.save, mesh, path, set(ignore) if ignore else None,
@@ -939,6 +999,7 @@ def _pick_dialect(rng, fmt):
         d["comments"] = rng.random() < 0.6
         d["extras"] = rng.choice(["native", "native", "ptr", "min"])
         d["order"] = rng.randrange(2)
+        d["data_comments"] = rng.choice([None, None, "blank", "tight"])  # none / header lines / data lines / both
     return d
 
 
@@ -1010,7 +1071,7 @@ def direction_foreign(ctx, desc, inp, fmt, tmp, cfg):
                  "cells": len(data["C"]), "cell_corners": sum(len(c) for c in data["C"]),
                  "cell_faces": sum(ref_geogram.CELL_NF[len(c)] for c in data["C"])}
         data["attrs"], made = _foreign_attrs(rng, desc.get("attrs", []), sizes)
-    for k in ("eol", "float", "extras", "order", "comments", "blank"):
+    for k in ("eol", "float", "extras", "order", "comments", "blank", "data_comments"):
         if k in d and (k != "eol" or d[k] != "\n"):
             ctx.cls("dialect:%s:%s=%s" % (fmt, k, {"\r\n": "crlf"}.get(d[k], d[k])))
     path = os.path.join(tmp, _file_name("f", fmt, desc))
@@ -1079,6 +1140,7 @@ def _run(desc, ctx, tmp):
     ctx.cls("ignore:" + (",".join(desc.get("ignore", [])) or "none"))
     ctx.cls("rows:%s/%s" % (desc["vrows"], desc["irows"]))
     ctx.cls("vstore:%s" % (desc.get("vstore") or "python_float_rows"))
+    ctx.cls("hard_edge_flags:%s" % (desc.get("hard_edit") or "as_built"))
     ctx.cls("file_name:extension_%s%s" % (desc.get("ext_case", "lower"), ",dotted_base" if desc.get("dotted_name") else ""))
     if F:
         ctx.cls("face_arities:" + ",".join(sorted({_fcls(len(f)) for f in F})))
